@@ -149,7 +149,7 @@ func (s *Sim) randomRun(ndgram int, urgent bool, wantClose, wantCtx bool) {
 	kinds := []string{"good", "rej", "rej", "undec", "wrongop", "wronghw", "good"}
 	xids := append([]int{}, s.cfg.Xid...)
 	xids = append(xids, 99)
-	injected, longTicks := 0, 0
+	injected, longTicks, closeAgains := 0, 0, 0
 	maxCalls := 1 + s.rng.Intn(3)
 	// planned env actions
 	for step := 0; step < 400; step++ {
@@ -181,6 +181,9 @@ func (s *Sim) randomRun(ndgram int, urgent bool, wantClose, wantCtx bool) {
 		}
 		if wantClose && s.closeState == "" && s.rng.Intn(25) == 0 {
 			ch = append(ch, choice{"close", 0})
+		}
+		if s.closeState != "" && closeAgains < 2 && s.rng.Intn(6) == 0 {
+			ch = append(ch, choice{"closeagain", 0})
 		}
 		if s.cfg.WFault && s.rng.Intn(6) == 0 {
 			ch = append(ch, choice{"link", 0}) // the link goes down / comes back
@@ -216,6 +219,9 @@ func (s *Sim) randomRun(ndgram int, urgent bool, wantClose, wantCtx bool) {
 			}
 		case c.kind == "close":
 			s.closeStart()
+		case c.kind == "closeagain":
+			closeAgains++
+			s.closeAgain()
 		case c.kind == "tick":
 			s.tick()
 		case c.kind == "longtick":
